@@ -109,6 +109,11 @@ func (c *ServiceCodec) Decode(request []byte, context *core.ServiceContext) (nam
 	}
 	args = make([]interface{}, count)
 	for i, t := range paramTypes {
+		if t == nil {
+			// an argument beyond the parameters: keep the generic JSON value (the hprose codec reads it into interface{})
+			args[i] = req.Params[i]
+			continue
+		}
 		data, _ := c.Codec.Marshal(req.Params[i])
 		t2 := reflect2.Type2(t)
 		a := t2.New()
